@@ -25,6 +25,11 @@
 //!                     same-thread callback between run() and flush(); 5 same-thread wake of
 //!                     the loop's own waker (Runtime::waker) after flush(). A lost wake is
 //!                     observed as "slept the whole watchdog with a runnable task".
+//!   mode 6 (completion burst) a = ring capacity, b = number of receives that complete at once
+//!                     (more than the completion queue holds), c = 1: another thread wakes the
+//!                     runtime during the burst. After the burst was handled a task is woken from
+//!                     another thread while the runtime is blocked in poll_with(2.5 s): the wait
+//!                     must end promptly. out: [6; drv; cap*1000+burst; burst_ok; ms; lost; 0].
 //! out:  [mode; drv; r1; r2; r3; r4; n; (kind thread arg)*n]   (meaning of r* per mode)
 //!       the events are the AwakeFlag / notifier / enter hook events, thread 0 =
 //!       the driver thread.
@@ -732,6 +737,111 @@ fn ext_loop(drv: u64, source: u64, rounds: u64, q: u64, seed: u64) -> Result<Vec
     Ok(out)
 }
 
+// ---------------------------------------------------------------------------
+// mode 6: a burst of completions fills the completion queue while the notifier fires;
+// afterwards a cross-thread wake must still end a blocking wait of the runtime.
+// (On io_uring an overflowing completion queue ends the multishot poll on the
+// notifier's eventfd with a final completion: the driver has to arm it again.)
+
+fn cq_burst(drv: u64, cap: u64, burst: u64, wake_in_burst: u64, seed: u64) -> Result<Vec<u64>, BadCase> {
+    use compio_driver::{
+        SharedFd,
+        op::{Recv, RecvFlags},
+    };
+    use std::{cell::Cell, io::Write, os::unix::net::UnixStream, rc::Rc};
+
+    if cap == 0 || cap > 64 || burst == 0 || burst > 256 || wake_in_burst > 1 {
+        return Err(BadCase);
+    }
+    let mut rng = Rng(seed | 1);
+    let mut pb = ProactorBuilder::new();
+    pb.driver_type(driver_type(drv)).capacity(cap as u32);
+    let mut rb = RuntimeBuilder::new();
+    rb.with_proactor(pb);
+    let rt = rb.build().map_err(|_| BadCase)?;
+
+    let done = Rc::new(Cell::new(0u64));
+    let mut peers = Vec::new();
+    rt.enter(|| {
+        rt.poll_with(Some(Duration::ZERO));
+        for _ in 0..burst {
+            let (a, b) = UnixStream::pair().expect("socketpair");
+            a.set_nonblocking(true).ok();
+            peers.push(b);
+            let sfd = SharedFd::new(a);
+            let done = done.clone();
+            rt.spawn(async move {
+                let op = Recv::new(sfd, Vec::with_capacity(8), RecvFlags::empty());
+                let _ = compio_runtime::submit(op).await;
+                done.set(done.get() + 1);
+            })
+            .detach();
+        }
+        while rt.run() {}
+        rt.flush();
+    });
+    // every receive completes at once ...
+    for p in peers.iter_mut() {
+        let _ = p.write(&[7u8]);
+    }
+    std::thread::sleep(Duration::from_millis(20 + rng.next() % 40));
+    // ... and right then (variant 1) another thread wakes the runtime
+    if wake_in_burst == 1 {
+        let w = rt.waker();
+        std::thread::spawn(move || w.wake()).join().ok();
+        std::thread::sleep(Duration::from_millis(10 + rng.next() % 40));
+    }
+    let deadline = Instant::now() + Duration::from_secs(6);
+    let mut burst_ok = 1u64;
+    rt.enter(|| {
+        while done.get() < burst {
+            if Instant::now() > deadline {
+                burst_ok = 0;
+                break;
+            }
+            rt.poll_with(Some(Duration::from_millis(20)));
+            rt.run();
+        }
+        for _ in 0..3 {
+            rt.poll_with(Some(Duration::ZERO));
+            rt.run();
+        }
+    });
+
+    // business as usual: a task waits to be woken from another thread while the runtime
+    // is blocked in the driver (the timeout is only the watchdog)
+    let probe = Probe::new();
+    let h = rt.spawn(ProbeFut(probe.clone()));
+    rt.enter(|| while rt.run() {});
+    let before = probe.polls.load(SeqCst);
+    let w = probe.waker.lock().unwrap().clone();
+    let delay = 60 + rng.next() % 200;
+    let waking = std::thread::spawn(move || {
+        std::thread::sleep(Duration::from_millis(delay));
+        if let Some(w) = w {
+            w.wake();
+        }
+    });
+    let start = Instant::now();
+    rt.enter(|| {
+        rt.poll_with(Some(Duration::from_millis(2500)));
+        rt.run();
+    });
+    let elapsed = start.elapsed().as_millis() as u64;
+    waking.join().ok();
+    let polled_again = (probe.polls.load(SeqCst) > before) as u64;
+    let lost = (elapsed >= 2000 || polled_again == 0) as u64;
+    probe.done.store(true, SeqCst);
+    if let Some(w) = probe.waker.lock().unwrap().clone() {
+        w.wake();
+    }
+    rt.enter(|| rt.run());
+    drop(h);
+    drop(peers);
+    drop(rt);
+    Ok(vec![6, drv, cap * 1000 + burst, burst_ok, elapsed.min(100_000), lost, 0])
+}
+
 fn run(case: &[u64]) -> Result<Vec<u64>, BadCase> {
     let mut c = Case::new(case);
     let mode = c.take()?;
@@ -749,6 +859,7 @@ fn run(case: &[u64]) -> Result<Vec<u64>, BadCase> {
         3 => external(drv, a),
         4 => executor(drv, a, b, cc, seed),
         5 => ext_loop(drv, a, b, cc, seed),
+        6 => cq_burst(drv, a, b, cc, seed),
         _ => Err(BadCase),
     }
 }
